@@ -272,6 +272,48 @@ def run_c22(rnd, tier, v, stats):
         for m, s, vd in list(rx.inbox) + list(rx.rxms):
             if signed and m != memo:
                 v("C22/tampered-memo-delivered", inp, m[:40], memo[:40])
+    # a gram signed by ANOTHER key for the victim's memo id, under every header code that carries its own signer id (incl. the signed
+    # ack code), injected at every position: what is delivered under the victim's id must be the victim's memo
+    from hio.core.memo import memoing as _mm
+    from hio.help import helping as _hp
+    for it in range(6 if tier == "quick" else 40):
+        size = rnd.choice([200, 260])
+        vs, va = vids[0], vids[1]
+        ms = "victim says: " + "pay account 01 " * rnd.randint(10, 14)
+        txs = make(MemoDex.GramAuthZero, False, size, vid=vs)
+        txs.memoit(ms, "dst", vs)
+        txs.serviceTxMemos()
+        while txs.txgs:
+            txs.serviceTxGrams()
+        gs = [g for g, d in txs.outbox if g]
+        probe = make(MemoDex.GramAuthZero, False, size, authic=True, vid=vs)
+        mid = probe.pick(bytearray(gs[0]))[0]
+        mid = mid.decode() if hasattr(mid, "decode") else mid
+        signer = make(MemoDex.GramAuthZero, False, size, vid=va)
+        for code in [c for c in signer.Sizes if signer.Sizes[c][3] and signer.Sizes[c][4]]:      # codes with a signer id and a signature
+            bz, nz, mz, vz, az = signer.Sizes[code]
+            for gn in range(0, len(gs) + 1):
+                head = code.encode() + _hp.intToB64b(gn, l=nz) + mid.encode() + va.encode()
+                body = b"<<EVIL>>"
+                sig = signer.sign(va, head + body)
+                forged = head + body + (sig if isinstance(sig, bytes) else sig.encode())
+                for pos in range(len(gs) + 1):
+                    rx = make(MemoDex.GramAuthZero, False, size, authic=True, vid=vs)
+                    seq = gs[:pos] + [forged] + gs[pos:]
+                    inp = dict(code=code, forged_gram_number=gn, injected_at=pos, grams=len(gs))
+                    try:
+                        for g in seq:
+                            rx.rxq.append((g, "src"))
+                            rx.serviceAllRx()
+                        rx.serviceAllRx()
+                    except Exception as ex:   # noqa
+                        v("C22/receive-side-raised", dict(inp, witness_class=type(ex).__name__), repr(ex)[:100])
+                        continue
+                    stats["evals"] += 1
+                    stats["distinct"].add(repr(inp))
+                    for m, s_, vd in list(rx.inbox) + list(rx.rxms):
+                        if vd == vs and m != ms:
+                            v("C22/memo-with-a-foreign-signers-gram-delivered", inp, m[:60], ms[:60])
     # two signers, one memo id: an attacker with its OWN valid key reuses an observed memo id.  Whatever the interleaving,
     # a delivered memo must be one signer's content, attributed to that signer.
     import itertools as _it
